@@ -127,6 +127,38 @@ func genC16(t *rapid.T) C16Case {
 			c.Costs = append(c.Costs, CostEntry{Name: n, C: fstr(rapid.SampledFrom(pool).Draw(t, "cost"))})
 		}
 	}
+	// now and then a plain variable is priced exactly like a sibling call (a tie between shapes)
+	if rapid.IntRange(0, 2).Draw(t, "maketie") == 0 {
+		var nodes []*m.Node
+		tree.Walk(func(x *m.Node) {
+			if x.Kind == m.KOp && (m.IsAnd(x.Name) || m.IsOr(x.Name)) {
+				nodes = append(nodes, x)
+			}
+		})
+		nd := nodes[rapid.IntRange(0, len(nodes)-1).Draw(t, "tienode")]
+		var plain, other []*m.Node
+		for _, k := range nd.Kids {
+			if k.Kind == m.KVar {
+				plain = append(plain, k)
+			} else if k.Kind != m.KConst {
+				other = append(other, k)
+			}
+		}
+		if len(plain) > 0 && len(other) > 0 {
+			pv := plain[rapid.IntRange(0, len(plain)-1).Draw(t, "tieplain")]
+			q := other[rapid.IntRange(0, len(other)-1).Draw(t, "tieother")]
+			cm := costMap(c.Costs)
+			delete(cm, pv.Name)
+			want := modelCost(q, cm, rapid.Bool().Draw(t, "tiefast")) - 5
+			var kept []CostEntry
+			for _, ce := range c.Costs {
+				if ce.Name != pv.Name {
+					kept = append(kept, ce)
+				}
+			}
+			c.Costs = append(kept, CostEntry{Name: pv.Name, C: fstr(want)})
+		}
+	}
 	var concrete []string
 	for _, n := range names {
 		if n != "variable" && n != "operator" {
@@ -252,7 +284,7 @@ func checkC16(c C16Case, r *Rec) *Violation {
 	compile := func(mask int, costs []CostEntry) (*CfgRun, *Violation) {
 		return runCfg("C16", u, src, Build{Mask: mask, How: HowMapAll, Costs: costs})
 	}
-	widest, equalGroups := 0, 0
+	widest, equalGroups, crossTies := 0, 0, 0
 	for base := 0; base < 8; base++ {
 		off, v := compile(base, c.Costs)
 		if v != nil {
@@ -312,6 +344,49 @@ func checkC16(c C16Case, r *Rec) *Violation {
 		})
 		if bad != nil {
 			return bad
+		}
+		// (ii') ties between operands of different shape, by the calibrated cost model (see c16_costmodel.go)
+		costModel.calibrate()
+		if costModel.isValid() {
+			cm := costMap(c.Costs)
+			fast := base&MaskFast != 0
+			tieSeen := false
+			matchBool(off.DTree, on.DTree, func(a, b *m.Node) {
+				if bad != nil || !costModel.isValid() {
+					return
+				}
+				srcPos := map[string]int{}
+				for i, ka := range a.Kids {
+					srcPos[canonBool(ka)] = i
+				}
+				strict := 0
+				for i := 0; i+1 < len(b.Kids); i++ {
+					x, y := b.Kids[i], b.Kids[i+1]
+					cx, cy := modelCost(x, cm, fast), modelCost(y, cm, fast)
+					switch {
+					case cx > cy:
+						costModel.invalidate(fmt.Sprintf("%s (model cost %v) is ordered before %s (model cost %v) under costs %v", m.Render(x), cx, m.Render(y), cy, c.Costs))
+						return
+					case cx < cy:
+						strict++
+					default:
+						if shapeKey(x, costTag) != shapeKey(y, costTag) {
+							tieSeen = true
+						}
+						if costModel.usable() && srcPos[canonBool(x)] > srcPos[canonBool(y)] {
+							bad = Violf("C16: operands of equal estimated cost (%v) do not keep source order: %s was written before %s\n%s", cx, m.Render(y), m.Render(x), where())
+							return
+						}
+					}
+				}
+				costModel.addStrict(strict)
+			})
+			if bad != nil {
+				return bad
+			}
+			if tieSeen {
+				crossTies++
+			}
 		}
 		// (v) behaviour follows the dump: effects = left-to-right short-circuit evaluation of the dumped program
 		if !MatchTrace(on.Trace, on.RefTrace) || (on.RefErr != m.ErrOptionalFetch && !Agrees(on.Out, on.RefVal, on.RefErr)) {
@@ -424,6 +499,14 @@ func checkC16(c C16Case, r *Rec) *Violation {
 	})
 	if widest >= 13 {
 		r.Class("and-or-with->=13-operands")
+	}
+	if crossTies > 0 {
+		r.Class("tie-between-operands-of-different-shape")
+	}
+	if costModel.usable() {
+		r.Class("cost-model:calibrated-and-consistent")
+	} else if !costModel.isValid() {
+		r.Class("cost-model:switched-off(" + clip(costModel.why, 80) + ")")
 	}
 	if equalGroups >= 2 {
 		r.Class("stability:>=13-operands-and->=2-equal-cost-groups")
